@@ -2,6 +2,7 @@ import Mathlib.LinearAlgebra.Matrix.DotProduct
 import Mathlib.Data.Matrix.Mul
 import Mathlib.Data.Matrix.ColumnRowPartitioned
 import Mathlib.Tactic.Ring
+import Mathlib.Tactic.FieldSimp
 import Mathlib.Tactic.Linarith
 import Mathlib.Algebra.Order.BigOperators.Ring.Finset
 /-!
@@ -152,5 +153,84 @@ theorem wssr_fixed_reduction (X₁ : Matrix m n K) (Xf : Matrix m f K) (y w : m 
   rw [this]
   simp only [Pi.sub_apply]
   ring
+
+/-! ## Column scaling (the conditioning step of `wls_sparse`) -/
+
+section ColumnScaling
+/-- the design matrix with column `j` multiplied by `d j` (as `wls_sparse` does with `d j = 1/‖column j‖`) -/
+def scaleCols (X : Matrix m n K) (d : n → K) : Matrix m n K := Matrix.of fun i j => X i j * d j
+
+theorem scaleCols_mulVec (X : Matrix m n K) (d q : n → K) :
+    scaleCols X d *ᵥ q = X *ᵥ (fun j => d j * q j) := by
+  funext i
+  simp only [scaleCols, Matrix.mulVec, dotProduct, Matrix.of_apply]
+  apply Finset.sum_congr rfl; intro j _; ring
+
+/-- the weighted SSR of the column-scaled problem at `q` is that of the original problem at `d·q` -/
+theorem wssr_scaleCols (X : Matrix m n K) (y w : m → K) (d q : n → K) :
+    wssr (scaleCols X d) y w q = wssr X y w (fun j => d j * q j) := by
+  unfold wssr; rw [scaleCols_mulVec]
+
+/-- **Column scaling.** `q` solves the normal equations of the column-scaled problem iff `d·q` solves those of the original
+problem (all scale factors non-zero): solving the well-conditioned scaled system and un-scaling gives a least-squares
+solution of the system that was posed, whatever the units of the columns (metre- or kilometre-scale `x`). -/
+theorem normalEq_scaleCols (X : Matrix m n K) (y w : m → K) (d q : n → K) (hd : ∀ j, d j ≠ 0) :
+    NormalEq (scaleCols X d) y w q ↔ NormalEq X y w (fun j => d j * q j) := by
+  unfold NormalEq
+  rw [scaleCols_mulVec]
+  constructor
+  · intro h j
+    have := h j
+    simp only [scaleCols, Matrix.of_apply] at this
+    have e : ∑ i, X i j * d j * (w i * (y i - (X *ᵥ fun j => d j * q j) i))
+        = d j * ∑ i, X i j * (w i * (y i - (X *ᵥ fun j => d j * q j) i)) := by
+      rw [Finset.mul_sum]; apply Finset.sum_congr rfl; intro i _; ring
+    rw [e] at this
+    exact (mul_eq_zero.mp this).resolve_left (hd j)
+  · intro h j
+    simp only [scaleCols, Matrix.of_apply]
+    have e : ∑ i, X i j * d j * (w i * (y i - (X *ᵥ fun j => d j * q j) i))
+        = d j * ∑ i, X i j * (w i * (y i - (X *ᵥ fun j => d j * q j) i)) := by
+      rw [Finset.mul_sum]; apply Finset.sum_congr rfl; intro i _; ring
+    rw [e, h j, mul_zero]
+
+/-- the minimiser of the scaled problem, un-scaled, minimises the original weighted SSR -/
+theorem scaleCols_min (X : Matrix m n K) (y w : m → K) (d q : n → K) (hd : ∀ j, d j ≠ 0) (hw : ∀ i, 0 ≤ w i)
+    (h : NormalEq (scaleCols X d) y w q) (p : n → K) :
+    wssr X y w (fun j => d j * q j) ≤ wssr X y w p :=
+  normalEq_min X y w _ hw ((normalEq_scaleCols X y w d q hd).mp h) p
+
+variable [DecidableEq n]
+
+/-- normal matrix `Xᵀ W X` -/
+def normalMat (X : Matrix m n K) (w : m → K) : Matrix n n K := Matrix.of fun j k => ∑ i, X i j * w i * X i k
+
+theorem normalMat_scaleCols (X : Matrix m n K) (w : m → K) (d : n → K) :
+    normalMat (scaleCols X d) w = Matrix.of fun j k => d j * normalMat X w j k * d k := by
+  ext j k
+  simp only [normalMat, scaleCols, Matrix.of_apply, Finset.mul_sum, Finset.sum_mul]
+  apply Finset.sum_congr rfl; intro i _; ring
+
+/-- **Covariance under column scaling.** If `Gs` is a generalised inverse of the scaled normal matrix (`As Gs As = As`) then
+`D Gs D` is one of the original normal matrix: un-scaling the covariance of the scaled solution by `d j · d k` gives a
+covariance of the posed problem. -/
+theorem ginverse_scaleCols (A Gs : Matrix n n K) (d : n → K) (hd : ∀ j, d j ≠ 0)
+    (hG : (Matrix.of fun j k => d j * A j k * d k) * Gs * (Matrix.of fun j k => d j * A j k * d k)
+          = Matrix.of fun j k => d j * A j k * d k) :
+    A * (Matrix.of fun j k => d j * Gs j k * d k) * A = A := by
+  ext j k
+  have h := congrFun (congrFun hG j) k
+  simp only [Matrix.mul_apply, Matrix.of_apply, Finset.sum_mul] at h ⊢
+  have e : ∀ a b, d j * A j a * d a * Gs a b * (d b * A b k * d k) = d j * (A j a * (d a * Gs a b * d b) * A b k) * d k := by
+    intro a b; ring
+  simp only [e, ← Finset.mul_sum, ← Finset.sum_mul] at h
+  have hj := hd j; have hk := hd k
+  have h2 : (∑ i, (∑ a, A j a * (d a * Gs a i * d i)) * A i k) = A j k := by
+    have := mul_right_cancel₀ hk h
+    exact mul_left_cancel₀ hj this
+  simp only [Finset.sum_mul] at h2
+  exact h2
+
+end ColumnScaling
 
 end DtsVerif.Theory
